@@ -16,3 +16,43 @@ Theorem C05_meaning_is_macro_free : forall p p', inline p = Ok p' ->
   p_macros p' = [] /\ program_has any_call p' = false.
 Proof. exact inline_macro_free. Qed.
 Print Assumptions C05_meaning_is_macro_free.
+
+(* ... and about the compiler's own expansion step (explorerscript/macro.py ExplorerScriptMacro.build, model
+   Comp/MacroBuild.v, tied to every real invocation by K-build): whatever the blueprint, the arguments and the counters,
+   the expansion is the blueprint with its labels renamed by an injective function into label numbers handed out during
+   this build (above the expansion's own start and end label), constants naming macro variables substituted (the
+   specification's own substitution [subst_params]), operations numbered consecutively, Return replaced by a jump to the
+   end label *)
+From ES Require Import Comp.MacroBuild Comp.MacroBuildProofs.
+
+Theorem C05_expansion_is_a_renaming : forall s bp cl co,
+  exists rho cl',
+    build s bp cl co =
+      (OLab (S cl) (LStart (S (count_ops bp))) :: renamed s (S (S cl)) rho bp co ++ [OLab (S (S cl)) LEnd],
+       cl', co + count_ops bp)
+    /\ S (S cl) <= cl'
+    /\ (forall i, In i (ids bp) -> S (S cl) < fst (rho i) <= cl')
+    /\ (forall i j, In i (ids bp) -> In j (ids bp) -> fst (rho i) = fst (rho j) -> i = j)
+    /\ (forall i k, first_kind bp i = Some k -> snd (rho i) = k).
+Proof. exact build_is_renaming. Qed.
+Print Assumptions C05_expansion_is_a_renaming.
+
+(* the body's labels are private to each expansion: two expansions built one after the other with the compiler's label
+   counter (the same macro twice, nested or not, anything built in between) share no label, defined or jumped to *)
+Theorem C05_labels_private_per_expansion : forall s1 bp1 cl1 co1 out1 cl1' co1' s2 bp2 cl2 co2 out2 cl2' co2',
+  build s1 bp1 cl1 co1 = (out1, cl1', co1') -> build s2 bp2 cl2 co2 = (out2, cl2', co2') -> cl1' <= cl2 ->
+  forall l, In l (out_labels out1) -> ~ In l (out_labels out2).
+Proof. exact expansions_share_no_label. Qed.
+Print Assumptions C05_labels_private_per_expansion.
+
+(* `return` leaves only the macro: the end label is no copy of a blueprint label - it stands once, at the end *)
+Theorem C05_return_leaves_only_the_macro : forall s bp cl co rho cl',
+  (forall i, In i (ids bp) -> S (S cl) < fst (rho i) <= cl') ->
+  forall k, ~ In (OLab (S (S cl)) k) (renamed s (S (S cl)) rho bp co).
+Proof. exact end_label_only_at_end. Qed.
+Print Assumptions C05_return_leaves_only_the_macro.
+
+Theorem C05_expansion_numbers_operations_consecutively : forall s bp cl co out cl' co',
+  build s bp cl co = (out, cl', co') -> out_numbers out = seq (S co) (count_ops bp) /\ co' = co + count_ops bp.
+Proof. exact build_numbers. Qed.
+Print Assumptions C05_expansion_numbers_operations_consecutively.
